@@ -7,13 +7,23 @@ CFG = dict(
           "real A256KW wrap callbacks; kit Encrypt -> kit Decrypt, or a document of the independent reference encoder under the worker's own "
           "32-byte file key -> kit Decrypt; tampered MAC / failing or wrong unwrap / damaged last segment, whose FAILURES are results too; "
           "chunked sources and consumers; an unwrap callback that yields and sleeps between header parsing and MAC verification), "
-          "byteslicepool Get/fill/verify/Resize/Put cycles on the cast's shared pool, crypto.Encrypt/Decrypt over the 19 symmetric "
+          "byteslicepool Get/fill/verify/Resize/Put cycles on the cast's shared pool (styles append and resize; style keep = a caller that goes on "
+          "using slices it never put back: it fills the slice from Get, passes it to a chain of 0..2 GROWING Resize calls (size = capacity + 0..5000, "
+          "so a new slice must be allocated; Resize does not consume its argument), writes into each new slice, optionally takes a SECOND slice "
+          "with Get while all earlier ones are still held, waits (the other users' window), then verifies that every held slice still contains "
+          "exactly what the worker wrote, and finally puts the outgrown slices back - the `defer pool.Put(buf)` idiom - or leaves them to the "
+          "garbage collector, each slice put at most once), crypto.Encrypt/Decrypt over the 19 symmetric "
           "algorithms, SignPrivateKey/VerifyPublicKey over the 10 signature algorithms (Ed25519 keys of the worker's own), RSA "
           "EncryptPublicKey/DecryptPrivateKey, cron.ParseStandard (package-level parser) or an own cron.Parser + chained Next + "
           "cron.PrintfLogger, logger.NewLogger by distinct names with own output buffers plus same-name and cast-wide shared-name look-ups. "
+          "EXTRA class, outside the letter of the statement and labelled EXTRA(object-level) in the class counters: aead workers - all aead workers "
+          "of a cast with the same variant (the four aescbcaead.NewAESCBC*SHA* constructors, key expanded from the cast's aeadkey) call Seal/Open, "
+          "1..40 times per repetition, on ONE shared cipher.AEAD object, each with its own nonce, additional data, plaintexts and dst prefix, and "
+          "also Open a damaged tag and other additional data (must be rejected); in the solo phase the worker has an AEAD object of its own with the same key. "
           "Every worker first runs ALONE; then all run at once behind a start barrier (1..3 rounds, GOMAXPROCS 16; thorough also 2, 4, 8) "
-          "in a binary built with -race. Non-trivial: at least two pool-sharing pipelines (two enc pipelines on BufPool, or two "
-          "byteslicepool workers) were inside a repetition at the same time, measured with an active-counter. Distinct by the full cast "
+          "in a binary built with -race. Non-trivial: at least two state-sharing pipelines (two enc pipelines on BufPool, two "
+          "byteslicepool workers, or - EXTRA class - two aead workers on the same AEAD object) were inside a repetition at the same time, "
+          "measured with an active-counter. Distinct by the full cast "
           "encoding. Section TestPinnedHeaderBufferReuse: rounds of a fixed cast of 24 enc workers (counted as one distinct case).",
      assumptions=["Go runtime, sync/atomic, the race detector (a data race report anywhere in the process is a violation) and rapid v1.3.0 are correct",
                   "which interleavings occur is decided by the Go scheduler and the hardware: schedule coverage is statistical, a failing cast may not fail again "
@@ -21,13 +31,23 @@ CFG = dict(
                   "independent objects: each worker owns its message, keys, jwk.Key objects, callbacks, parser, output buffers and its named logger; "
                   "logger-wide settings that are shared by design (ApplyOptionsToLoggers) are not exercised; the cast-wide shared logger name is only looked up",
                   "byteslicepool: the doc comment of Get does not promise an empty slice, so len(Get()) is only compared with the worker's own solo run; "
-                  "no zeroing claim; a slice is the worker's own between Get and Put",
+                  "no zeroing claim; a slice is the worker's own between Get and Put; no claim about the capacity Get returns (the size of a growing Resize is "
+                  "derived from the capacity at hand and never enters a result)",
+                  "byteslicepool.Resize does not take ownership of its argument: its comment says that the old, too small slice is discarded 'so it can be garbage "
+                  "collected', and the pool has no other way of knowing when the caller is done with it; a caller may therefore read the slice it passed in, put it "
+                  "back later (once) or drop it. A growing Resize returns the requested length with the old content first (the only reading of 'resize'); nothing "
+                  "is asserted about the bytes beyond the old length. Slices above 128 KiB are not put back by the keep workers (harness resource bound)",
+                  "EXTRA class (shared AEAD): C08 speaks of independent objects and package-level state; one AEAD object used by several goroutines is object-level "
+                  "shared state. It is included because crypto/cipher's AEADs (GCM, ChaCha20-Poly1305) are safe for concurrent use, callers keep and share the value "
+                  "returned by aescbcaead.NewAESCBC*SHA*, and the effect is the one the statement names - one caller's bytes in another caller's result or failure. "
+                  "Its counters are prefixed EXTRA(object-level); a violation of this class alone says 'shared-AEAD' in the failing worker's result",
                   "results that are random by specification (file key, PSS/ECDSA signatures, RSA ciphertexts) are compared through their verification / decryption, not byte for byte"],
      technique="property-based stress-differential testing (rapid-drawn casts, real goroutines, race detector): each worker's concurrent results "
                "are compared with its own solo run; an independent reference decoder (refenc) and the standard library verify what kit produced concurrently",
      level_text="Generated-input search over casts of concurrent pipelines on the real code, under the race detector. Oracle: per-repetition "
                 "result (plaintext digest, error text, ciphertext length, reference-decoder verdict, signature verification, Next instants, log lines, "
-                "Get length and slice content) equal to the same worker's solo result; no panic in any worker; no data race report. "
+                "Get length and slice content, content of every pooled slice still held after growing Resize / second Get, shared-AEAD round trips "
+                "and rejections) equal to the same worker's solo result; no panic in any worker; no data race report. "
                 "Schedules are sampled (yields and sleeps at the points where pooled buffers are outstanding, 16 processors), not enumerated: no absence claim.",
      level_note="Trusts the Go runtime, the race detector, rapid and the harness' reference encoder/decoder (refenc, self-checked against the repository's fixtures).",
      timeout_quick=900, timeout_thorough=3000)
